@@ -8,5 +8,5 @@ Extraction "../ocaml/build/c05_model.ml"
   write_tag_line write_entry_line read_tag_line read_entry_line
   name_ok desc_ok wiki_attr_ok row_free_of_reserved
   tsv_write_tag_row tsv_write_entry_row tsv_read_row tsv_desc_ok xml_read_desc desc_text_ok
-  df_suffixes files_written output_tables open_file_lines xml_read_name xml_name_text rebuild_names merged_library ename_ok can_save
+  df_suffixes files_written output_tables csv_write_cell csv_read_cell cell_value writer_files reader_files open_file_lines xml_read_name xml_name_text read_tag_section write_tag_section rebuild_names merged_library ename_ok can_save
   process_schema.
